@@ -569,26 +569,27 @@ func rulesC02(c *Ctx) {
 			if !c.Check(decoded != nil, impl.Name()+":decodes-into-a-local", impl, nil, "the params are decoded into a local the nil test can be about") {
 				continue
 			}
-			guard := -1
+			var refusal []Atom
 			for _, r := range impl.Returns() {
 				if len(r.Results) != 2 || !impl.WrapsObj(r.Results[1], eIR) {
 					continue
 				}
 				rv := ig.VertexOf(r)
-				if hasAtom(ig.GuardsAt(rv), func(a Atom) bool {
+				if gs := ig.GuardsAt(rv); hasAtom(gs, func(a Atom) bool {
 					return AtomSaysNil(a, true, func(e ast.Expr) bool { return impl.ObjOf(e) == decoded })
 				}) {
-					if cs := ig.guardingConds(rv); len(cs) > 0 {
-						guard = cs[len(cs)-1]
-					}
+					refusal = gs
 				}
 			}
-			if !c.Check(guard >= 0, impl.Name()+":null-params-refused", impl, nil, "nil params (absent or JSON null) are answered with ErrInvalidRequest (-32600) instead of reaching a handler that dereferences them") {
+			if !c.Check(refusal != nil, impl.Name()+":null-params-refused", impl, nil, "nil params (absent or JSON null) are answered with ErrInvalidRequest (-32600) instead of reaching a handler that dereferences them") {
 				continue
 			}
+			// under the very conditions that lead to the refusal no successful return is reachable (the test cannot be
+			// bypassed); decided by evaluating the branch conditions, not by where the test is written
+			reach := ig.ReachAssuming(refusal)
 			for i, r := range impl.Returns() {
 				if len(r.Results) == 2 && isNilIdent(r.Results[1]) {
-					c.Check(ig.Dominates(guard, ig.VertexOf(r)), impl.Name()+":null-test-before-success#"+itoa(i), impl, r, "the nil test is evaluated on every path to this successful return")
+					c.Check(!reach[ig.VertexOf(r)], impl.Name()+":null-test-before-success#"+itoa(i), impl, r, "the nil test is evaluated on every path to this successful return")
 				}
 			}
 		}
